@@ -5,7 +5,9 @@
  tsan_run         g++ ThreadSanitizer: T threads, shared and per-thread views, readers everywhere, writers on pairwise disjoint
                   coordinate sets; per-thread digests == digests of a sequential run == (direct / nn) digests of `Covfie.Conc.run`
                   on a sampled interleaving; the generated programs are checked against the theorem's hypothesis `NoConflict`
-                  at cell level with the model's footprints."""
+                  at cell level with the model's footprints.  Wrapper layers (affine, clamp, backup, shuffle, cast, …) take part through
+                  generated stacks (harness/stackgen.py): four threads of read-only lookups through one shared view object and
+                  through views of their own must return the bits of the same lookups made one after the other, race-free."""
 import itertools, random, re, struct
 from concurrent.futures import ThreadPoolExecutor
 from vlib import common as C
@@ -532,6 +534,109 @@ def tsan_runs(ctx):
 
 
 # =========================================================================================================== entry points
+# ------------------------------------------------------------------------------------------------ wrapper layers, concurrently
+def conc_extra(stack):
+    """C++ of the `conc` operation of one generated stack: T threads, K lookups each, (a) one after the other through one
+    view, (b) concurrently through that SAME view object, (c) concurrently through views each thread makes for itself;
+    all three must give the same bits (and ThreadSanitizer must stay silent)"""
+    from harness import stackgen as G
+    sk, N, bare = stack.in_kind()
+    osk, M = stack.out_kind()
+    ct = G.CPP[sk]
+    coord = (f"fromb<{ct}>(in.coord[(t * K + k)])" if bare else
+             f"vec<typename field<B>::coordinate_t, {ct}, {N}>(in.coord, (t * K + k) * {N})")
+    return (
+        "std::string conc(const In & in) {\n  if (!F) return \"nosetup\";\n"
+        "  const std::size_t T = in.cfg[0], K = in.cfg[1];\n"
+        "  typename field<B>::view_t v(*F);\n"
+        "  auto one = [&](const typename field<B>::view_t & vw, std::size_t t, std::vector<u64> & o) {\n"
+        f"    for (std::size_t k = 0; k < K; ++k) {{ auto c = {coord}; auto r = vw.at(c); for (std::size_t q = 0; q < {M}; ++q) o.push_back(bits(r[q])); }}\n"
+        "  };\n"
+        "  std::vector<std::vector<u64>> seq(T), con(T), own(T);\n"
+        "  for (std::size_t t = 0; t < T; ++t) one(v, t, seq[t]);\n"
+        "  { std::atomic<int> go{0}; std::vector<std::thread> th;\n"
+        "    for (std::size_t t = 0; t < T; ++t) th.emplace_back([&, t] { while (!go.load()) {} one(v, t, con[t]); });\n"
+        "    go = 1; for (auto & x : th) x.join(); }\n"
+        "  { std::atomic<int> go{0}; std::vector<std::thread> th;\n"
+        "    for (std::size_t t = 0; t < T; ++t) th.emplace_back([&, t] { while (!go.load()) {} typename field<B>::view_t w(*F); one(w, t, own[t]); });\n"
+        "    go = 1; for (auto & x : th) x.join(); }\n"
+        "  std::size_t bad1 = 0, bad2 = 0;\n"
+        "  for (std::size_t t = 0; t < T; ++t) { if (con[t] != seq[t]) ++bad1; if (own[t] != seq[t]) ++bad2; }\n"
+        "  return \"conc \" + std::to_string(bad1) + \" \" + std::to_string(bad2);\n}\n")
+
+
+def wrapper_items(ctx):
+    """generated stacks with at least one wrapper layer (affine / clamp / backup / shuffle / cast / deref), plus fixed ones"""
+    from harness import stackgen as G
+    from fractions import Fraction as Fr
+    rnd = random.Random(ctx.seed * 7919 + 1601)
+    stacks = []
+    # fixed: a sheared affine over nearest neighbour over row-major; backup and clamp over an interpolator (lookups fall inside and outside)
+    arr = G.Array("f32", 1); arr.setup(rnd, 12)
+    stacks.append(G.Affine([[Fr(1), Fr(1, 2), Fr(0)], [Fr(0), Fr(1), Fr(1, 4)]], G.Interp("nn", "f32", G.Layout("strided", "u64", [4, 3], arr))))
+    want = 10 if ctx.quick else 60
+    guard = 0
+    while len(stacks) < want and guard < 40 * want:
+        guard += 1
+        try:
+            s = G.random_stack(rnd)
+        except G.NoSample:
+            continue
+        labels = [l.label for l in s.layers()]
+        if s.depth() < 2 or not G.fits(s) or not any(x in labels for x in ("affine", "clamp", "backup", "shuffle", "cast", "deref")):
+            continue
+        if getattr(s.layers()[-1], "probe", None):      # recording probe backends are not thread-safe by design
+            continue
+        stacks.append(s)
+    items = []
+    T, K = 4, (12 if ctx.quick else 40)
+    for s in stacks:
+        co = G.gen_coords(rnd, s, T * K)
+        if len(co) < T * K:
+            co = (co * (T * K // max(1, len(co)) + 1))[:T * K] if co else []
+        if co:
+            items.append({"stack": s, "coords": co[:T * K], "T": T, "K": K})
+    return items
+
+
+def part_wrappers(ctx, corr, items):
+    from harness import stackgen as G
+    if not items:
+        return
+    exe, failures = G.build_tus(ctx, [(k, it["stack"], conc_extra(it["stack"])) for k, it in enumerate(items)], ["tsan"], 4, "c16w",
+                                ops=("setup", "at", "conc"))
+    for idxs, cfg, err, src in failures:
+        raise C.CompileError(src, cfg, err)
+
+    def run_one(k):
+        it = items[k]; s = it["stack"]
+        sk = s.in_kind()[0]
+        words = " ".join(str(G.enc(sk, x)) for c, _, _ in it["coords"] for x in c)
+        line = f"conc S{k} {it['T']} {it['K']} ; ; {words}"
+        o, cr = C.run_lines(exe[(k, "tsan")], [line] * (3 if ctx.quick else 10), setup=[G.setup_line(k, s)],
+                            env={"TSAN_OPTIONS": "exitcode=96:halt_on_error=1"}, min_timeout=120)
+        return o, cr
+    for k, (outs, crashes) in enumerate(G.run_parallel(run_one, list(range(len(items))))):
+        it = items[k]; s = it["stack"]
+        for rep_, o in enumerate(outs):
+            corr.configs["tsan"] += 1
+            corr.case(("wrappers", s.desc(), it["T"], it["K"], rep_), True)
+            corr.dist["tsan/wrapper-stacks"] += 1
+            for l in s.layers():
+                corr.dist["tsan/wrapper-layer/" + l.label] += 1
+            bad = o != "conc 0 0"
+            corr.add_obl("tsan_run", 1, 1 if bad else 0)
+            if bad:
+                why = ("ThreadSanitizer reports a data race between concurrent lookups" if "tsan" in o else
+                       f"concurrent lookups returned other bits than the same lookups one after the other (`{o}`: threads differing with a "
+                       "shared view, with own views)" if o.startswith("conc ") else f"the concurrent run died: {o}")
+                corr.violation("tsan_run", f"field<{s.desc()[:170]}>, {it['T']} threads x {it['K']} read-only lookups: {why}",
+                               {"part": "wrappers", "stack": s.to_json(), "coords": [[G.jv(x) for x in c] for c, _, _ in it["coords"]],
+                                "T": it["T"], "K": it["K"]},
+                               impl=o, model="conc 0 0", oracle_fails=True, key={"kind": "wrappers", "stack": s.desc()}, cfg="tsan")
+                break
+
+
 def finish(corr):
     def size(v):
         c = v["case"] or {}
@@ -548,6 +653,7 @@ def run(ctx):
     part_footprint(ctx, corr, exes, fp_cases(ctx))
     part_statics(ctx, corr, exes)
     part_tsan(ctx, corr, exes, tsan_runs(ctx))
+    part_wrappers(ctx, corr, wrapper_items(ctx))
     return finish(corr)
 
 
@@ -561,6 +667,11 @@ def replay(ctx):
     elif part == "statics":
         exes = build_all(ctx, ("statics",))
         part_statics(ctx, corr, exes)
+    elif part == "wrappers":
+        from harness import stackgen as G
+        s = G.from_json(c["stack"])
+        co = [(tuple(G.vj(x) for x in cc), None, None) for cc in c["coords"]]
+        part_wrappers(ctx, corr, [{"stack": s, "coords": co, "T": c["T"], "K": c["K"]}])
     else:
         exes = build_all(ctx, ("conc",))
         r = dict(c["run"])
